@@ -200,3 +200,11 @@ package redis
 //@   ensures implies(err == nil, result)
 //@   ensures implies(err != nil && errors.Is(err, red.Nil), result) && implies(err != nil && errors.Is(err, context.Canceled), result)
 //@   ensures implies(result && err != nil, errors.Is(err, red.Nil) || errors.Is(err, context.Canceled))
+
+// building a store object (validation, options, first ping) touches no object that exists (trusted frame; the client managers
+// are package-level registries no contract reads)
+//@ func MustNewRedis
+//@   trusted
+//@   ensures result != nil
+//@   modifies nothing
+//@   allocates
